@@ -11,7 +11,7 @@ variable {Node VH : Type} [DecidableEq Node] [DecidableEq VH] (H : Hasher Node V
 
 /-! ### the order on bit strings -/
 
-theorem bitsLt_trans : ∀ (a b c : List Bool), bitsLt a b = true → bitsLt b c = true → bitsLt a c = true
+theorem bitsLt_transE : ∀ (a b c : List Bool), bitsLt a b = true → bitsLt b c = true → bitsLt a c = true
   | [], [], _, h, _ => by simp [bitsLt] at h
   | [], _ :: _, [], _, h => by simp [bitsLt] at h
   | [], _ :: _, _ :: _, _, _ => by simp [bitsLt]
@@ -19,7 +19,7 @@ theorem bitsLt_trans : ∀ (a b c : List Bool), bitsLt a b = true → bitsLt b c
   | _ :: _, _ :: _, [], _, h => by simp [bitsLt] at h
   | x :: xs, y :: ys, z :: zs, h1, h2 => by
     simp only [bitsLt] at h1 h2 ⊢
-    have ih := bitsLt_trans xs ys zs
+    have ih := bitsLt_transE xs ys zs
     cases x <;> cases y <;> cases z <;> simp_all
 
 /-- `a ≤ b` -/
@@ -247,7 +247,7 @@ theorem pathsAscending_pairwise : ∀ (paths : List (MultiPathProof VH)),
     intro q hq
     rcases List.mem_cons.1 hq with hq | hq
     · subst hq; exact h.1
-    · exact bitsLt_trans _ _ _ h.1 ((List.pairwise_cons.1 ih).1 q hq)
+    · exact bitsLt_transE _ _ _ h.1 ((List.pairwise_cons.1 ih).1 q hq)
 
 /-! ### depth bounds implied by a successful `verify_range` -/
 
